@@ -3,7 +3,8 @@
   boundary only, the nested `split_at_mut` walk, the 0×0 normalisation) refines `partitionSpec`:
   the grid of consecutive-difference rectangles, or the panic the code raises.
 -/
-import EasyMl.Lemmas.MatrixViewSpec
+import EasyMl.Lemmas.FallibleMatrix
+import EasyMl.Spec.MatrixView
 
 namespace EasyMl.MatrixView
 open EasyMl.Spec EasyMl.Fallible
